@@ -82,7 +82,7 @@ def header(sc):
     for n in nodes:
         if "/" in n:
             ch[n.rsplit("/", 1)[0]].append(n)
-    return {"ev": "Init", "nodes": nodes, "ch": ch, "roots": sc["roots"], "quit": sc.get("quit", []),
+    return {"ev": "Init", "nodes": nodes, "ch": ch, "roots": [r for r in sc["roots"] if not r.startswith("gone")], "quit": sc.get("quit", []),
             "err": sc.get("err", []), "skip": sc.get("skip", [])}
 
 
@@ -278,6 +278,11 @@ def main(tier):
             roots = list(roots)
             roots.insert(rng.randint(0, len(roots)), "<stdin>")
             samefs = rng.random() < 0.8
+        if len(roots) >= 1 and rng.random() < 0.2:
+            # a root that does not exist, not the last one: reported as an error by the thread that distributes the
+            # roots; every other root is walked as usual (it is not a node of the tree: its error is only noted)
+            roots = list(roots)
+            roots.insert(rng.randint(0, len(roots) - 1), "gone%d" % i)
         locked = []
         inner = [t.rstrip("/") for t in tree if t.endswith("/") and t.rstrip("/") not in roots and t.rstrip("/") not in err]
         if inner and rng.random() < 0.2:
